@@ -71,3 +71,21 @@ package unixsocket
 //@   callsite WriteMsgUnix: assert @C19 len(m.Fds) > 0 ==> B.item[0] == enc_rights(m.Fds)
 //@   callsite WriteMsgUnix: assert @C19 m.Cred != nil ==> B.item[B.n - 1] == enc_cred(m.Cred)
 //@   callsite WriteMsgUnix: assert @C19 b == old(b)
+
+//@ func pkg/unixsocket.newSocket
+//@   arith int
+//@   assigns nothing
+//@   ensures result != nil && fresh(result) && result.UnixConn == conn && len(result.recvBuff) == 4096 && len(result.sendBuff) == 4096
+
+//@ func pkg/unixsocket.NewSocket props C19
+//@   arith int
+//@   assigns nothing
+//@   ensures result.1 == nil ==> result.0 != nil && result.0.UnixConn != nil && len(result.0.recvBuff) == 4096
+
+//@ func pkg/unixsocket.NewSocketPair props C19
+//@   arith int
+//@   assigns FD.closed
+//@   ensures result.2 == nil ==> result.0 != nil && result.0.UnixConn != nil && result.1 != nil && result.1.UnixConn != nil
+//@ func pkg/unixsocket.(*Socket).SetPassCred
+//@   trusted "setsockopt(SO_PASSCRED) through SyscallConn().Control (closure over the raw descriptor)"
+//@   pure
